@@ -184,12 +184,40 @@ pub fn run(p: &Params, rep: &mut Report) {
         ck.rep.sample(|| format!("a={} b={} c={} i={} n={}", fmt_w(&a), fmt_w(&b), fmt_w(&c), i, n));
     }
     ck.rep.count("random_tuples", nrand);
+    // long patterns with nested borders: p = u u u' x ... preceded in the subject by a partial occurrence of p
+    let nb = p.size(300, 5000);
+    for _ in 0..nb {
+        let ul = 1 + rng.usize(4);
+        let u: Vec<u32> = (0..ul).map(|_| *rng.pick(&[0x61u32, 0x62])).collect();
+        let reps = 2 + rng.usize(4);
+        let mut pat: Vec<u32> = Vec::new();
+        for _ in 0..reps {
+            pat.extend_from_slice(&u);
+        }
+        pat.extend_from_slice(&u[..rng.usize(ul + 1).min(ul)]);
+        pat.push(*rng.pick(&[0x63u32, 0x61, 0x20AC, 0x2FFFF]));
+        while pat.len() < 16 + rng.usize(12) {
+            pat.push(*rng.pick(&[0x61u32, 0x62, 0x63, 0x20AC]));
+        }
+        // subject: noise, a proper prefix of the pattern (partial occurrence), then the pattern, then noise
+        let mut subj: Vec<u32> = (0..rng.usize(6)).map(|_| *rng.pick(&[0x61u32, 0x62])).collect();
+        let cut = 1 + rng.usize(pat.len() - 1);
+        subj.extend_from_slice(&pat[..cut]);
+        if rng.chance(3, 4) {
+            subj.extend_from_slice(&pat);
+        }
+        subj.extend((0..rng.usize(5)).map(|_| *rng.pick(&[0x61u32, 0x62, 0x20AC])));
+        let i = rng.usize(subj.len().min(8)) as i32;
+        check_tuple(&mut ck, &subj, &pat, &[0x5A], i, pat.len() as i32);
+        ck.rep.eval(Some(&format!("border{}|{}", fmt_w(&subj), fmt_w(&pat))));
+        ck.rep.inc("bordered_pattern_tuples");
+    }
     // long subjects (1k-20k characters, two letters, planted patterns): same definitions, bigger indices
     let nlong = p.size(40, 400);
     for _ in 0..nlong {
         let la = 1000 + rng.usize(19_000);
         let mut a: Vec<u32> = (0..la).map(|_| if rng.chance(1, 9) { 0x62 } else { 0x61 }).collect();
-        let lb = 1 + rng.usize(6);
+        let lb = if rng.chance(1, 2) { 1 + rng.usize(6) } else { 16 + rng.usize(33) };
         let st = rng.usize(la - lb);
         let b: Vec<u32> = if rng.chance(1, 2) { a[st..st + lb].to_vec() } else { (0..lb).map(|_| *rng.pick(&[0x61u32, 0x62])).collect() };
         if rng.chance(1, 2) {
